@@ -3,6 +3,10 @@
 import json, subprocess
 ALL = ["C%02d" % i for i in range(1, 21)]
 CHECKS = {
+ "C03": dict(cat="model_checking", ref="§5 C03, §4.4",
+   text="DvidPersist.tla models every repo-level request as its program of in-memory steps and store writes with CleanRestart/Crash/Recover; TLC checks Act_C03_RestartIsStutter (rebuilding the manager state from what the writes persisted yields the same observable projection) for every reachable state. Binding: (1) the store-write sequence of every repo-level request, recorded by the wrapping store engine, must equal the program the specification prescribes (table emitted by TLC); (2) seeded multi-datatype histories are executed on the real server with a real process restart (alternating clean stop / SIGKILL while idle) after every operation and the complete API snapshot (repos info, DAG, branch heads, flags, notes, logs, instance settings/tags, every data read endpoint at every version) must be identical before and after.",
+   note="Trusts Badger durability across process kill. Datatypes in the histories: keyvalue, roi, annotation, neuronjson, uint8blk (labelmap restarts are exercised by C08). master's branch-versions listing is excluded (ill-defined with merge nodes even without restart).",
+   tech="TLC model checking of DvidPersist.tla (restart as stuttering) + store-write trace conformance + restart-after-every-operation snapshot comparison on real processes"),
  "C05": dict(cat="model_checking", ref="§5 C05",
    text="KVRange.tla defines range/listing results from the point-read semantics of KVRead.tla and DeleteRange as an action; TLC evaluates every generated case (DAG shape x joint placement of three prefix-related keys x optional DeleteRange) and checks the DeleteRange claims (exactly the interval's keys vanish at the node and its descendants; ancestors, siblings and other keys unchanged). Each case is replayed on the real server: all 21 intervals over 6 endpoints at every version through keyrange, keyrangevalues (protobuf/json/tar), keys, keyvalues and the store's GetRange/KeysInRange/SendKeysInRange/ProcessRange, compared with TLC's expected point reads filtered by the interval; DeleteRange is executed through the store API.",
    note="Shapes: all with 3 and 4 nodes (+300 seeded 5-node shapes thorough); joint placements are seeded samples (16/40 per shape). Intervals containing a key in merge conflict are skipped.",
